@@ -12,7 +12,7 @@ void *nondet_vptr(void);
 static inline void xv_tc_havoc(void)
 {
     xv_fd_havoc();
-    xv_regs = nondet_int(); xv_timers = nondet_int(); xv_tmgrs = nondet_int(); xv_xpolls = nondet_int();
+    xv_regs = nondet_int(); xv_timers = nondet_int(); xv_tmgrs = nondet_int();
     xv_trk = nondet_vptr(); xv_ai = nondet_int();
     xv_att_begun = nondet_uint(); xv_att_failed = nondet_uint(); xv_att_errno = nondet_int(); xv_att_conn = nondet_uint();
     xv_att_conn_rc = nondet_int(); xv_att_conn_errno = nondet_int(); xv_att_conn_fd = nondet_int(); xv_att_conn_src = nondet_vptr();
